@@ -3,7 +3,10 @@
 
 package hls
 
-import "io/ioutil"
+import (
+	"io/ioutil"
+	"sync"
+)
 
 // Inspectors for the verification harness (build tag verif only): read-only snapshots of the
 // segment generator and the playlist.
@@ -60,4 +63,26 @@ func (sg *SegmentGenerator) VerifCurrentBytes() []byte {
 		return b
 	}
 	return nil
+}
+
+// verifRollover: the harness's handler of a generator's roll-over schedule points.
+var verifRollover sync.Map // *SegmentGenerator → func(point string, seq int)
+
+// VerifOnRollover installs f (nil removes it) to be called on the goroutine that writes
+// the frames at the schedule points of a segment roll-over: "rollover.listed" right after
+// the finished segment seq entered the playlist, "rollover.opened" right after the next
+// segment seq was opened. The harness runs an HLS client there: another goroutine may be
+// scheduled at exactly these points.
+func (sg *SegmentGenerator) VerifOnRollover(f func(point string, seq int)) {
+	if f == nil {
+		verifRollover.Delete(sg)
+		return
+	}
+	verifRollover.Store(sg, f)
+}
+
+func (sg *SegmentGenerator) verifPoint(point string, seq int) {
+	if f, ok := verifRollover.Load(sg); ok {
+		f.(func(point string, seq int))(point, seq)
+	}
 }
